@@ -6,12 +6,21 @@ import Cactus.Lemmas.Orphan
 import Cactus.Props.C16
 import Cactus.Props.C04
 /-!
-# C02 — values die at most once; the library never touches freed memory (first layer)
+# C02 — values die at most once; the library never touches freed memory
 
 In the model every library access to an allocation goes through `cell` / `tableOf` / the value
 field and reports `uaf`, `movedLinks`, `movedValue`, `underflow` instead of proceeding; so the
-property is "`err` never becomes one of those".  First layer: the local mechanisms the property
-anchors.  The lift to all histories is `InvS` in `Cactus.Lemmas.Safety`.
+property is "`err` never becomes one of those".  What is proved here:
+* one-step lemmas: `C02_begun_object_inert`, `C02_trace_reads_live_only`,
+  `C02_no_silent_double_free`;
+* whole histories: `C02_no_handle_to_released_allocation`, `C02_no_access_after_release` (under
+  `ReachableP`), `C02_contract_respecting_histories` (under the syntactic `Op.respects`), and with
+  no hypothesis on the history at all `C02_release_scheduled_at_most_once`,
+  `C02_destroyed_and_released_at_most_once`, `C02_run_at_most_once`;
+* example: a contract-respecting history with a collection, Weak handles and a destructor that
+  re-enters the library, the theorems instantiated and the log shown.
+Not proved: the library-side statements for histories that break the adoption contract (they are
+false: D4); real memory is abstracted by the model, the harness checks it on the implementation.
 -/
 namespace Cactus
 open State
@@ -148,5 +157,75 @@ theorem C02_contract_respecting_histories {s : State} (h : ReachableC s) : s.okE
     | some e =>
       unfold State.okErr at *
       rw [fail_err_of_some s .fuel e he]; rw [he] at ih; exact ih
+
+/-! ## Non-vacuity: a contract-respecting history with a collection and Weak handles
+
+A 3-ring `0 → 1 → 2 → 0` built with `link`; the program holds a Weak to object 0, object 2's value
+holds a Weak to object 1 and its destructor upgrades it (re-entering the library in the middle of
+the teardown, when 1 is already marked dead); a survivor (object 3) with a Weak.  The last `drop`
+collects the ring (destruction order chosen by the hint `[2, 0, 1]`); afterwards the Weak to the
+collected object 0 fails to upgrade and is dropped (releasing the allocation), the Weak to the
+survivor upgrades. -/
+
+def weakRingHistory : List (Op × List Nat) :=
+  [(.act .new, []), (.act .new, []), (.act .new, []),
+   (.act (.clone 1), []), (.act (.link 3 0), []),       -- 0 → 1
+   (.act (.clone 2), []), (.act (.link 3 1), []),       -- 1 → 2
+   (.act (.clone 0), []), (.act (.link 3 2), []),       -- 2 → 0
+   (.act (.downgrade 0), []),                           -- program: Weak to 0
+   (.act (.downgrade 1), []), (.act (.storeWeak 1 2), []),  -- object 2 holds a Weak to 1
+   (.setScript 2 [.upgradeField 0], []),                -- 2's destructor upgrades it
+   (.act .new, []), (.act (.downgrade 3), []),          -- survivor 3 and a Weak to it
+   (.act (.drop 1), []), (.act (.drop 1), []),          -- program handles to 1, 2
+   (.act (.drop 0), [2, 0, 1]),                         -- last handle: collects {0, 1, 2}
+   (.act (.upgrade 0), []),                             -- Weak to dead 0: None
+   (.act (.dropWeak 0), []),                            -- last Weak to 0: allocation released
+   (.act (.upgrade 0), []), (.act (.counts 1), [])]     -- Weak to survivor 3: Some
+
+/-- the syntactic hypothesis of `C02_contract_respecting_histories` holds (script included) -/
+theorem weakRingHistory_respects : ∀ oh ∈ weakRingHistory, oh.1.respects := by decide
+
+/-- so its final state is `ReachableC`, and (no error) `ReachableP` -/
+theorem weakRingHistory_reachableC : ReachableC (run weakRingHistory) :=
+  run_reachableC weakRingHistory weakRingHistory_respects
+
+theorem weakRingHistory_noErr : (run weakRingHistory).err = none := by decide +kernel
+
+/-- the theorems instantiated: the machine has not stopped for a library fault … -/
+example : (run weakRingHistory).okErr :=
+  C02_contract_respecting_histories weakRingHistory_reachableC
+
+example (o : Nat) : (run weakRingHistory).err ≠ some (.uaf o)
+    ∧ (run weakRingHistory).err ≠ some (.movedLinks o)
+    ∧ (run weakRingHistory).err ≠ some (.movedValue o)
+    ∧ (run weakRingHistory).err ≠ some (.doubleFree o)
+    ∧ (run weakRingHistory).err ≠ some (.underflow o)
+    ∧ (run weakRingHistory).err ≠ some (.corrupt o)
+    ∧ (run weakRingHistory).err ≠ some (.dangling o) :=
+  C02_no_access_after_release (weakRingHistory_reachableC.reachableP weakRingHistory_noErr) o
+
+/-- … every value was destroyed at most once and every allocation released at most once … -/
+example : (run weakRingHistory).destroyedVids.Nodup ∧ (run weakRingHistory).freedIds.Nodup :=
+  C02_run_at_most_once weakRingHistory
+
+/-- … every handle left designates an allocation that has not been released -/
+example : ((run weakRingHistory).cell 3).isSome = true :=
+  C02_no_handle_to_released_allocation
+    (weakRingHistory_reachableC.reachableP weakRingHistory_noErr) weakRingHistory_noErr
+    (by decide +kernel)
+
+/-- concretely (by evaluation): no error at all; the three ring values destroyed once each, in the
+order of the hint; the three allocations released once each (1 and 2 by `phase3`, 0 when its last
+Weak is dropped); the `upgradeField` inside the teardown and the `upgrade` after it return `None`
+(`ret 0`), the `upgrade` of the survivor's Weak `Some` (`ret 1`); survivor counts 2 strong, 1 Weak -/
+example : let s := run weakRingHistory
+    s.err = none ∧ s.destroyedVids = [2, 0, 1] ∧ s.freedIds = [1, 2, 0]
+    ∧ s.roots = [3, 3] ∧ s.wroots = [3]
+    ∧ s.log = [.traced 1 3 4, .traced 2 3 4, .traced 0 3 4,
+               .destroyed 2, .ret 0, .destroyed 0, .destroyed 1, .freed 1, .freed 2,
+               .ret 0, .freed 0, .ret 1, .ret 2, .ret 1]
+    ∧ s.heap.map (fun ob => (ob.strong, ob.weak, ob.freed))
+        = [(.uninit, 0, true), (.uninit, 0, true), (.uninit, 0, true), (.cnt 2, 2, false)] := by
+  decide +kernel
 
 end Cactus
